@@ -70,6 +70,10 @@ def run_job(job):
 
 
 def main() -> int:
+    sys.setrecursionlimit(30000)
+    import threading
+
+    threading.stack_size(512 * 1024 * 1024)
     job = json.load(sys.stdin)
     try:
         res = run_job(job)
